@@ -3,7 +3,7 @@ use crate::pipe::DuplexPipe;
 use crate::tcp_forwarder::TcpForwarder;
 use crate::tls_demultiplexer::Protocol;
 use crate::{core, http1_codec, http_codec, log_id, log_utils, net_utils, pipe, tunnel};
-use bytes::{BufMut, BytesMut};
+use bytes::{BufMut, Bytes, BytesMut};
 use std::io;
 use std::io::ErrorKind;
 use std::sync::atomic::{AtomicUsize, Ordering};
@@ -11,6 +11,12 @@ use std::sync::Arc;
 
 static ORIGINAL_PROTOCOL_HEADER: http::HeaderName =
     http::HeaderName::from_static("x-original-protocol");
+
+/// The limits for the head of the origin's response. The origin is a regular web server, so they
+/// are in line with what reverse proxies commonly accept from one, unlike the limits for
+/// the request heads of clients.
+const MAX_RESPONSE_HEADERS_NUM: usize = 128;
+const MAX_RAW_RESPONSE_HEADERS_SIZE: usize = 64 * 1024;
 
 #[derive(Default)]
 struct SessionManager {
@@ -164,28 +170,15 @@ async fn handle_stream(
     );
     server_sink.write_all(encoded).await?;
 
-    let mut buffer = BytesMut::new();
-    let (response, chunk) = loop {
-        match server_source.read().await? {
-            pipe::Data::Chunk(chunk) => {
-                server_source.consume(chunk.len())?;
-                buffer.put(chunk);
-            }
-            pipe::Data::Eof => return Err(ErrorKind::UnexpectedEof.into()),
-        }
-
-        match http1_codec::decode_response(
-            buffer,
-            http1_codec::MAX_HEADERS_NUM,
-            http1_codec::MAX_RAW_HEADERS_SIZE,
-        )? {
-            http1_codec::DecodeStatus::Partial(b) => buffer = b,
-            http1_codec::DecodeStatus::Complete(mut h, tail) => {
-                h.version = original_version; // restore the version in case it was not the same
-                break (h, tail.freeze());
-            }
+    let (mut response, chunk) = match read_response_head(server_source.as_mut()).await {
+        Ok(x) => x,
+        Err(e) => {
+            // the client is waiting for an answer
+            let _ = respond.send_bad_response(http::StatusCode::BAD_GATEWAY, vec![]);
+            return Err(e);
         }
     };
+    response.version = original_version; // restore the version in case it was not the same
 
     let mut client_sink = respond.send_response(response, false)?.into_pipe_sink();
     let chunk_len = chunk.len();
@@ -204,4 +197,30 @@ async fn handle_stream(
 
     pipe.exchange(context.settings.tcp_connections_timeout)
         .await
+}
+
+/// Read the head of the origin's response.
+/// Returns it along with the bytes that came after it.
+async fn read_response_head(
+    server_source: &mut dyn pipe::Source,
+) -> io::Result<(http_codec::ResponseHeaders, Bytes)> {
+    let mut buffer = BytesMut::new();
+    loop {
+        match server_source.read().await? {
+            pipe::Data::Chunk(chunk) => {
+                server_source.consume(chunk.len())?;
+                buffer.put(chunk);
+            }
+            pipe::Data::Eof => return Err(ErrorKind::UnexpectedEof.into()),
+        }
+
+        match http1_codec::decode_response(
+            buffer,
+            MAX_RESPONSE_HEADERS_NUM,
+            MAX_RAW_RESPONSE_HEADERS_SIZE,
+        )? {
+            http1_codec::DecodeStatus::Partial(b) => buffer = b,
+            http1_codec::DecodeStatus::Complete(h, tail) => return Ok((h, tail.freeze())),
+        }
+    }
 }
